@@ -31,7 +31,26 @@ func main() {
 	verbose := flag.Bool("v", false, "print requests / responses")
 	schema := flag.Bool("schema", false, "print the layout")
 	scan := flag.Int("scan", 0, "print the largest operation text of each of the next N cases (size survey) and exit")
+	scanOp := flag.Int("scanop", 0, "judge the -op operation on the layouts of the next N cases; print the cases where it is valid and violates")
 	flag.Parse()
+	if *scanOp > 0 && *opFile != "" {
+		b, err := os.ReadFile(*opFile)
+		if err != nil {
+			panic(err)
+		}
+		for i := *idx; i < *idx+*scanOp; i++ {
+			c, err := triage.Build(*seed, i, *tier)
+			if err != nil {
+				continue
+			}
+			v := c.Judge(string(b), []byte(*vars))
+			c.GW.Close()
+			if v.Invalid == "" {
+				fmt.Printf("%d valid classes=%v\n", i, v.Classes)
+			}
+		}
+		return
+	}
 	if *scan > 0 {
 		for i := *idx; i < *idx+*scan; i++ {
 			c, err := triage.Build(*seed, i, *tier)
